@@ -248,7 +248,7 @@ fn main() {
          Non-trivial: >= 2 evaluations were in flight at the same time (measured) and every call suspends at least once.",
     );
     ctx.assume("real threads sample interleavings, they do not enumerate them; reval holds no shared mutable state, so this is weak evidence by design");
-    let n = tier.pick(1500u64, 40_000u64);
+    let n = tier.pick(5000u64, 60_000u64);
     // cases run sequentially at the top level: each case is itself multi-threaded
     let t0 = std::time::Instant::now();
     let mut acc = Acc::default();
